@@ -216,6 +216,24 @@ def directed(rng, tier, idents):
         slots = sorted({o_ + i_ for o_, fs_ in layout for i_ in range(len(fs_))})
         items.append({"id": "segrun%d" % j, "module": m,
                       "script": [inst()] + [{"op": "call", "inst": 1, "export": "icall", "args": [arg("i32", s_), arg("i32", 1)]} for s_ in slots]})
+    # (e) twins: functions whose locals and code are the same BYTES but whose types differ (the code is valid under both), next
+    #     to each other and apart, short and long bodies (padded with nop): each is its own function, arguments and results keep
+    #     their types; called directly, through the table and from another function
+    vals = {"i32": [0x3FC00001, 0x01000001], "i64": [0x3FF8000000000001, 0x0020000000000001], "f32": [0x3FC00000, 0x4B800001], "f64": [0x3FF8000000000000, 0x4340000000000001]}
+    for j, (ta, tb) in enumerate((("i32", "f32"), ("f32", "i32"), ("i64", "f64"), ("f64", "i64"), ("i32", "i64"), ("f32", "f64"), ("f64", "f32"))):
+        types = [{"p": [ta], "r": [ta]}, {"p": [tb], "r": [tb]}, {"p": ["i32", ta], "r": [ta]}, {"p": ["i32", tb], "r": [tb]}]
+        funcs, exps, script = [], [], [inst()]
+        for ln in (0, 6, 22, 30, 62, 200):
+            code = [["local.get", 0]] + [["nop"]] * ln + [["local.get", 0], ["drop"], ["end"]]
+            base = len(funcs)
+            funcs += [{"type": 0, "locals": [], "body": code}, {"type": 1, "locals": [], "body": code},          # adjacent twins
+                      {"type": 0, "locals": [], "body": [["local.get", 0], ["call", base], ["end"]]},                # callers (different code)
+                      {"type": 1, "locals": [], "body": [["local.get", 0], ["call", base + 1], ["end"]]},
+                      {"type": 0, "locals": [], "body": code}]                                                    # a third copy, of the first type, apart
+            for k, t in ((0, ta), (1, tb), (2, ta), (3, tb), (4, ta)):
+                exps.append({"name": "t%d_%d" % (ln, k), "kind": "func", "idx": base + k})
+                script += [{"op": "call", "inst": 1, "export": "t%d_%d" % (ln, k), "args": [arg(t, x)]} for x in vals[t]]
+        items.append({"id": "twins%d" % j, "module": {"types": types, "funcs": funcs, "exports": exps}, "script": script})
     # (d) import names: distinct imports must stay distinct; identifiers come from Mangle.tla
     pairs = [("env", "f"), ("env", "f_g"), ("env", "f__g"), ("a_", "b"), ("a", "_b"), ("m0", "Xx"), ("m0", "x$y"), ("m_0", "x.y-z")]
     imports = []
